@@ -308,7 +308,8 @@ def run_nnx(ctx, i, rng, log):
     if r < 0.7:
       script.append(('call', rng.choice(names + ['missing_stream', 'default'] if default_seed is not None else names or ['default'])))
     elif r < 0.8:
-      script.append(('split', rng.choice([1, 2, 3, 4, (2, 2)]), rng.choice([..., 'params', 'dropout'])))
+      splits = rng.choice([1, 1, 2, 3, 4, (2, 2)])
+      script.append(('split', splits, rng.choice([..., 'params', 'dropout']), splits == 1 and rng.random() < 0.6, rng.randint(0, 2)))
     elif r < 0.88:
       script.append(('fork',))
     else:
@@ -332,15 +333,21 @@ def run_nnx(ctx, i, rng, log):
             continue
           out.append(('key', name, key_bytes(k)))
         elif st[0] == 'split':
-          _, splits, only = st
-          with nnx.split_rngs(rngs, splits=splits, only=only) as backups:
+          _, splits, only, squeeze, n_inside = st
+          counts_before = {tag: int(rngs[tag].count.value) for tag in vars(rngs) if tag != '_object__state'}
+          with nnx.split_rngs(rngs, splits=splits, only=only, squeeze=squeeze) as backups:
             for tag in list(vars(rngs)):
               if tag == '_object__state':
                 continue
               kv = rngs[tag].key.value
-              if kv.shape != ():
+              touched = kv.shape != () or int(rngs[tag].count.value) != counts_before[tag] or squeeze and (only is ... or only == tag)
+              if kv.shape != () or (squeeze and touched):
                 flat = kv.reshape(-1)
                 out.append(('split_keys', tag, [key_bytes(flat[j]) for j in range(flat.shape[0])]))
+                # draws made INSIDE the context (what a vmapped / scanned body does)
+                for _ in range(n_inside if kv.shape == () else 0):   # (a batched key can only be drawn from under vmap)
+                  kk = rngs[tag]().reshape(-1)
+                  out.append(('inner_keys', tag, [key_bytes(kk[j]) for j in range(kk.shape[0])]))
         elif st[0] == 'fork':
           forked = jax.tree.map(lambda x: x, nnx.state(rngs))  # observation only
           out.append(('fork',))
@@ -382,6 +389,10 @@ def run_nnx(ctx, i, rng, log):
         counts[tag] += 1
         ks = ev[2]
         ctx.check(len(set(ks)) == len(ks) and not (set(ks) & handed[tag]), 'nnx.no_replay:split_keys_not_fresh', lambda: dict(case=desc, stream=tag))
+        handed[tag].update(ks)
+      elif ev[0] == 'inner_keys':
+        tag, ks = ev[1], ev[2]
+        ctx.check(len(set(ks)) == len(ks) and not (set(ks) & handed[tag]), 'nnx.no_replay:key_inside_split_context_replayed', lambda: dict(case=desc, stream=tag))
         handed[tag].update(ks)
       elif ev[0] == 'reseed':
         tag, s = ev[1], ev[2]
